@@ -324,6 +324,10 @@ def c06(res, tier, rng, wd):
     run_e1(res, "C06", scs, wd, "c06")
     run_rtu_task(res, "C06", e1.gen_rtu_task_c06(rng, thorough), wd, "c06rtutask")
     run_e2(res, "C06", e2.gen_c06_client(rng, thorough), wd, "c06client")
+    # both roles on a real serial device (pseudo-terminal through tokio_serial, no hook): every frame put on the bus carries the
+    # CRC TLC computes, replies are accepted / requests executed only through the CRC check
+    run_e2(res, "C06", e2.gen_pty_client(rng, thorough), wd, "c06ptyclient", levels=False)
+    run_pty_server(res, "C06", e1.gen_pty_server(rng, thorough)[:2], wd, "c06ptyserver")
     res.assumptions = E1_ASSUME + ["CRC-16/MODBUS is computed by TLC from its own table (Rtu.tla), independent of the crc crate"]
     return res.finish(rule="RTU request frames of every function (min/typical/max size, broadcast): every single-bit flip "
                            "(sampled for the 250-byte frames in the quick tier), sampled double-bit flips, bursts of 2..16 bits, the same under "
